@@ -1,3 +1,4 @@
+import G3D.Proofs.HandlersTieNoErr
 import G3D.Props.C04
 import G3D.Props.C04b
 import G3D.Props.Classes
@@ -19,3 +20,10 @@ import G3D.Props.Classes
 #print axioms G3D.Props.C04.never_raises_all_of_euler
 #print axioms G3D.Props.C04.polyhedron_polyhedron_raises_only_euler
 #print axioms G3D.Props.C04.never_raises
+#print axioms G3D.Tie.interLineLine_ne_error
+#print axioms G3D.Tie.interSegSeg_onlyBug
+#print axioms G3D.Tie.interSegHalfLine_onlyBug
+#print axioms G3D.Tie.interHalfLineHalfLine_onlyBug
+#print axioms G3D.Tie.interLineSeg_onlyBug
+#print axioms G3D.Tie.interPlaneSeg_onlyBug
+#print axioms G3D.Tie.interPlanePlane_onlyBug
